@@ -202,8 +202,35 @@ def table():
         print(" | ".join(r))
 
 
+def table_md():
+    """Markdown table for DESIGN.md: which check caught which seeded change (first signature of each run)."""
+    print("| change | files changed | demo profile | caught by (check tier: first signatures) | missed by |")
+    print("|---|---|---|---|---|")
+    for sid in sorted(os.listdir(SEEDED)):
+        mp = os.path.join(SEEDED, sid, "meta.json")
+        if not os.path.exists(mp):
+            continue
+        m = json.load(open(mp))
+        caught, missed = [], []
+        for k, r in sorted(m.get("results", {}).items()):
+            how, prop, tier = k.split(":")
+            label = f"{prop} {tier}" + (" (applied to /repo)" if how == "official" else "")
+            if r["exit"] == 1:
+                sigs = [re.sub(r" x\d+$", "", x).split("|", 1)[1].replace("|", " / ") for x in r.get("signatures", [])[:2]]
+                caught.append(f"{label}: `" + "`, `".join(sigs) + "`")
+            elif r["exit"] == 0:
+                missed.append(label)
+            else:
+                missed.append(label + " (inconclusive)")
+        files = ", ".join(f"`{f.replace('src/', '')}`" for f in m.get("files_changed", []))
+        print(f"| {sid} | {files} | {m.get('verification', {}).get('demo_profile', 'dev')} | " + "; ".join(caught) + " | " + "; ".join(missed) + " |")
+
+
 if __name__ == "__main__":
     cmd = sys.argv[1]
+    if cmd == "table_md":
+        table_md()
+        sys.exit(0)
     if cmd == "intake":
         sys.exit(0 if intake(*sys.argv[2:6]) else 1)
     elif cmd == "screen":
